@@ -260,7 +260,12 @@ class Machine:
                 if pr[3]:
                     to = int(ln) - to
                 off += fr * nleaves(et)
-                ty = '[%s; %d]' % (et, to - fr)
+                if cnt is None:
+                    # a subslice of a slice is a slice: unsized, its length travels as pointer metadata
+                    ty = '[%s]' % et
+                    slen = to - fr
+                else:
+                    ty = '[%s; %d]' % (et, to - fr)
             else:
                 raise MirError('projection ' + repr(pr))
             i += 1
